@@ -46,7 +46,8 @@ struct rational_class {
 inline bool q_is_canonical(const rational_class &q)
 {
 #ifdef EXACT_ABSTRACT
-  return q.canon || q.den == 1;
+  /* "known canonical": by a GMP contract (flag), or by arithmetic: n/1 and (+-1)/d with d > 0 are in lowest terms */
+  return q.canon || q.den == 1 || ((q.num == 1 || q.num == -1) && q.den > 0);
 #else
   return q.den > 0 && exact_gcd(q.num, q.den) == 1;
 #endif
@@ -70,7 +71,7 @@ inline void canonicalize(rational_class &q)
   __CPROVER_assume((n == 0) == (q.num == 0));
   __CPROVER_assume(n == 0 || (n > 0) == ((q.num > 0) == (q.den > 0)));
   __CPROVER_assume(!(q.num == 0) || d == 1);
-  if (q.canon || (q.den == 1)) { n = q.num; d = q.den; }       /* idempotent on canonical input */
+  if (q_is_canonical(q)) { n = q.num; d = q.den; }       /* idempotent on canonical input */
   q.num = n; q.den = d; q.canon = true;
 #else
   long g = exact_gcd(q.num, q.den);
